@@ -305,9 +305,15 @@ def b3(ctx, F, nodes):
                     name = n["name"]
                     if name in PERMUTERS or name in READERS:
                         continue
-                    if p == E and name == "swap_remove":
-                        g = [t for t, pol in nd.guards(n, in_loop=True) if pol is True]
-                        if g and all(("repetition_move" in t or "Game::move_stack(game)" in t) and "_move" in t and "==" in t for t in g):
+                    if p == E and name in ("swap_remove", "remove"):
+                        # the root's repetition filter: one removal, control-dependent on a comparison with the game's move history
+                        from .common import enclosing_conditions, dependence_nodes
+                        dep = [x for c_ in enclosing_conditions(n, nd.fn["hir"]) for x in dependence_nodes(c_, nd.fn["hir"])]
+                        hist = any(x.get("k") == "MethodCall" and hir.callee_of(x) == "chess::Game::move_stack" for x in dep)
+                        eqs = any(x.get("k") == "Binary" and x.get("op") == "==" for x in dep)
+                        n_rm = sum(1 for y, _ in hir.walk(nd.body) if y.get("k") == "MethodCall" and y["name"] in ("swap_remove", "remove")
+                                   and hir.strip(y["recv"]).get("to", {}).get("name") == "moves")
+                        if hist and eqs and n_rm == 1:
                             continue
                     bad.append((hir.line(n), name))
             if n.get("k") == "AddrOf" and "Mut" in str(n.get("mut")) or (n.get("k") == "AddrOf" and n.get("mut") is True):
